@@ -345,15 +345,17 @@ udp_remove_pipe(udp_pipe *p)
 		return;
 	}
 	p->id = 0;
-	NNI_ASSERT(ep->peer_count != 0);
-	ep->peer_count--;
 	for (;;) {
 		udp_pipe *srch;
 		if ((srch = nni_id_get(&ep->pipes, id)) == NULL) {
+			// Never made it into the table (udp_add_pipe failed),
+			// so it was never counted either.
 			break;
 		}
 		if (srch == p) {
 			nni_id_remove(&ep->pipes, id);
+			NNI_ASSERT(ep->peer_count != 0);
+			ep->peer_count--;
 			break;
 		}
 		id++;
